@@ -68,7 +68,8 @@ Threads == 0..(NThreads - 1)
 VARIABLES svc,    \* [ex, id, lid, c, users, ncr]
           pend,   \* per thread: the pending call
           ek,     \* key of the run configuration
-          gh      \* ghost: [next, seen] - abstract incarnation counter, number of distinct real ids seen
+          gh      \* ghost: [next, seen, ob] - abstract incarnation counter, number of distinct real ids
+                  \* seen, threads whose pending drop is obliged to contain the last user's (KnownDeviation)
 
 avars == <<svc, pend, ek, gh>>
 
@@ -77,7 +78,7 @@ avars == <<svc, pend, ek, gh>>
 Absent == [ex |-> FALSE, id |-> 0, lid |-> 0, c |-> 0, users |-> {}, ncr |-> 0]
 IdleRec == [st |-> "idle", a |-> "-", nd |-> 0, c |-> 0, h |-> 0,
             r |-> "-", id |-> 0, sc |-> 0, v |-> 0, ov |-> {}]
-Gh0 == [next |-> 1, seen |-> 0]
+Gh0 == [next |-> 1, seen |-> 0, ob |-> {}]
 
 AInit(k) ==
     /\ ek = k
@@ -168,11 +169,14 @@ LinWith(t, o) ==
                        THEN [pend[u] EXCEPT !.ov = @ \cup {"lastdrop"}]      \* overlapped by a teardown
                        ELSE pend[u]]
     /\ svc' = o.nsvc
-    /\ gh' = IF o.cr THEN [gh EXCEPT !.next = @ + 1] ELSE gh
+    /\ gh' = IF o.cr THEN [gh EXCEPT !.next = @ + 1]
+             ELSE IF pend[t].a = "drop" /\ t \in gh.ob
+                  THEN [gh EXCEPT !.ob = IF o.v = 1 THEN {} ELSE @ \ {t}]
+                  ELSE gh
     /\ UNCHANGED ek
 
-\* pend[t].v = 2 on a called drop: an obligation (set by RetKnownDeviation) to be the last user's drop
-Obliged(t, o) == pend[t].a = "drop" /\ pend[t].v = 2 => o.v = 1
+\* gh.ob: pending drops one of which is obliged (by RetKnownDeviation) to be the last user's drop
+Obliged(t, o) == (pend[t].a = "drop" /\ t \in gh.ob) => (o.v = 1 \/ gh.ob \ {t} # {})
 
 Lin(t) ==
     /\ pend[t].st = "called"
@@ -192,8 +196,8 @@ Transient(a, r, v, ov) ==
     \/ /\ a \in {"exist", "list"} /\ r = "Ok" /\ v = 0 /\ ov \cap Creators # {}
 
 \* The one known defect that the trace specification steps over (see the header): the call is
-\* overlapped by a create/ooc, by a last user's drop that already took effect ("lastdrop"), or by a
-\* drop that is still to be linearized - which is then OBLIGED to turn out to be the last user's.
+\* overlapped by a create/ooc, by a last user's drop that already took effect ("lastdrop"), or by
+\* drops that are still to be linearized - one of which is then OBLIGED to be the last user's.
 KnownDeviationGuard(t, a, r) ==
     /\ P = "bb" /\ a = "open" /\ r = "ServiceInCorruptedState"
     /\ pend[t].st = "called" /\ pend[t].a = a
@@ -202,12 +206,11 @@ KnownDeviationGuard(t, a, r) ==
 
 RetKnownDeviation(t, a, r) ==
     /\ KnownDeviationGuard(t, a, r)
-    /\ \/ /\ pend[t].ov \cap {"create", "ooc", "lastdrop"} # {}
-          /\ pend' = [pend EXCEPT ![t] = IdleRec]
-       \/ \E u \in Threads \ {t} :
-             /\ pend[u].st = "called" /\ pend[u].a = "drop"
-             /\ pend' = [pend EXCEPT ![t] = IdleRec, ![u].v = 2]
-    /\ UNCHANGED <<svc, ek, gh>>
+    /\ pend' = [pend EXCEPT ![t] = IdleRec]
+    /\ gh' = IF pend[t].ov \cap {"create", "ooc", "lastdrop"} # {}
+             THEN gh
+             ELSE [gh EXCEPT !.ob = @ \cup {u \in Threads \ {t} : pend[u].st = "called" /\ pend[u].a = "drop"}]
+    /\ UNCHANGED <<svc, ek>>
 
 \* ---------------------------------------------------------------- returns
 \* `lid` = the incarnation id the real handle shows (small integers in order of first appearance
